@@ -577,11 +577,25 @@ harness!(ser_method2_decode, unwind = 8, { constant_decode(K_METHOD, 2) });
 harness!(ser_method3_decode, unwind = 8, { constant_decode(K_METHOD, 3) });
 
 // constant tags outside the documented table, and boolean bytes other than 0/1, are rejected
-harness!(ser_constant_reject, unwind = 10, {
+// Two harnesses, because a symbolic tag makes CBMC unroll every arm of the constant reader whatever the assumption
+// says: with the payload bytes symbolic too, the string and method arms get symbolic lengths and the run exhausts
+// 12 GB. (a) every tag above the documented ones, the bytes after it zero (the reader fails on the tag before it
+// reads any of them); (b) the boolean tag with every payload byte other than 0 and 1, the bytes after it symbolic.
+harness!(ser_constant_reject, unwind = 6, {
     let mut buf = [0u8; 8];
-    let mut i = 0;
-    while i < 8 { buf[i] = kani::any(); i += 1; }
-    kani::assume(buf[0] > K_BOOL || (buf[0] == K_BOOL && buf[1] > 1));
+    buf[0] = kani::any();
+    kani::assume(buf[0] > K_BOOL);
+    let mut rd: &[u8] = &buf[..];
+    let mut code = Code::from(Vec::with_capacity(1));
+    let got = ProgramObject::from_bytes(&mut rd, &mut code);
+    witness!(true, "U: an undocumented constant encoding was accepted");
+    forget(got); forget(code);
+});
+
+harness!(ser_boolean_reject, unwind = 6, {
+    let mut buf: [u8; 8] = kani::any();
+    buf[0] = K_BOOL;
+    kani::assume(buf[1] > 1);
     let mut rd: &[u8] = &buf[..];
     let mut code = Code::from(Vec::with_capacity(1));
     let got = ProgramObject::from_bytes(&mut rd, &mut code);
